@@ -251,9 +251,9 @@ Definition o_cond (o : roracle) (b : builtin) : bool :=
       forallb (fun u => forallb (fun v => Nat.eqb u v || mget (ro_utc o) u v) vs) vs
   end.
 
-(* number of edges according to the adjacency matrix *)
+(* number of edges according to the adjacency matrix (pairs are (parent, child)) *)
 Definition o_edge_count (o : roracle) : nat :=
-  length (filter (fun cp => mget (ro_adj o) (fst cp) (snd cp))
+  length (filter (fun pc => mget (ro_adj o) (snd pc) (fst pc))
                  (list_prod (seq 0 (ro_n o)) (seq 0 (ro_n o)))).
 
 (* ---------------------------------------------------------------------------------------- *)
